@@ -291,12 +291,22 @@ SB_extends(SB* self, PyObject* other)
 {
     PyObject* implied;
 
+    int contains;
+
     implied = self->_implied;
     if (implied == NULL) {
+        PyErr_SetString(PyExc_AttributeError, "_implied");
         return NULL;
     }
 
-    if (PyDict_GetItem(implied, other) != NULL)
+    /* ``other in self._implied``: errors raised while hashing or comparing
+       ``other`` propagate, as in the Python version. */
+    Py_INCREF(implied);
+    contains = PySequence_Contains(implied, other);
+    Py_DECREF(implied);
+    if (contains < 0)
+        return NULL;
+    if (contains)
         Py_RETURN_TRUE;
     Py_RETURN_FALSE;
 }
@@ -753,11 +763,16 @@ IB__adapt__(PyObject* self, PyObject* obj)
         implied = ((SB*)decl)->_implied;
         if (implied == NULL) {
             Py_DECREF(decl);
+            PyErr_SetString(PyExc_AttributeError, "_implied");
             return NULL;
         }
 
-        implements = PyDict_GetItem(implied, self) != NULL;
+        Py_INCREF(implied);
+        implements = PySequence_Contains(implied, self);
+        Py_DECREF(implied);
         Py_DECREF(decl);
+        if (implements < 0)
+            return NULL;
     } else {
         /* decl is probably a security proxy.  We have to go the long way
            around.
